@@ -136,7 +136,17 @@ func vC03Cfg(r *vRand) rmntypes.RemoteConfig {
 }
 
 func vC03Root(r *vRand, k cciptypes.ChainSelector, s, e uint64) cciptypes.MerkleRootChain {
-	return cciptypes.MerkleRootChain{ChainSel: k, OnRampAddress: []byte{byte(k), 0xAD},
+	// on-ramp addresses of 2, 20 and 32 bytes (abi-encoded / non-EVM addresses are longer than 20 bytes)
+	addr := []byte{byte(k), 0xAD}
+	switch r.Intn(3) {
+	case 1:
+		addr = make([]byte, 20)
+		addr[0], addr[19] = byte(k), 0xAD
+	case 2:
+		addr = make([]byte, 32)
+		addr[0], addr[11], addr[12], addr[31] = byte(k), 0x01, byte(k), 0xAD
+	}
+	return cciptypes.MerkleRootChain{ChainSel: k, OnRampAddress: addr,
 		SeqNumsRange: cciptypes.NewSeqNumRange(cciptypes.SeqNum(s), cciptypes.SeqNum(e)), MerkleRoot: vC03Bytes32(r, 0xAA)}
 }
 
